@@ -29,7 +29,25 @@ PyNe(a, b) == IF Raiser(a) \/ Raiser(b) THEN (IF a = b THEN "false" ELSE "raises
 
 Modes == {"none", "identity", "equality"}
 Kinds == {"trait", "event"}
-Mechs == {"static", "any", "dynamic", "observe"}     \* _x_changed/_x_fired, _anytrait_changed, on_trait_change, observe
+\* static: _x_changed/_x_fired method; any: _anytrait_changed method; dynamic: obj.on_trait_change(h, "x");
+\* observe: obj.observe(h, "x"); anydyn: obj.on_trait_change(h) (every trait of the object);
+\* decorated: an @observe("x")-decorated method with the magic name _x_changed, defined in a BASE class of the object's class
+Mechs == {"static", "any", "dynamic", "observe", "anydyn", "decorated"}
+Dynamic == {"dynamic", "observe", "anydyn"}          \* registered and removed at run time; the others belong to the class
+Shapes == {"plain", "inherited", "bare"}             \* plain: static + any; inherited: decorated (in a base class) + any; bare: no handler methods
+ObserveLike(m) == m \in {"observe", "decorated"}
+\* who is registered: cfg.shape decides the class-level handlers, regs (a set of Dynamic) the run-time ones
+Registered(cfg, regs, m) ==
+  CASE m = "static"    -> cfg.shape = "plain"
+    [] m = "decorated" -> cfg.shape = "inherited"
+    [] m = "any"       -> cfg.shape # "bare"
+    [] OTHER           -> m \in regs
+\* as the code is structured: trait-level handlers sit in the (instance) trait's notifier list, object-level ones in the
+\* object's list; call_notifiers is guarded by "either list is non-empty".  The trait's list, once created for a dynamic
+\* handler, stays (empty) after the handler is removed: `mat`.  None of this may influence who is called.
+TraitLevel == {"static", "dynamic", "observe", "decorated"}
+ObjectLevel == {"any", "anydyn"}
+HasNotifiers(cfg, regs) == \E m \in Mechs : Registered(cfg, regs, m)
 
 \* ---- the property's notion of change (the statement of C02)
 IsChange(mode, old, new) ==
@@ -43,7 +61,7 @@ WrapperAccepts(mode, old, new) ==                                               
   mode # "equality" \/ PyNe(old, new) \in {"true", "raises"}
 ObservePrevents(mode, old, new) == mode = "equality" /\ PyEq(old, new) = "true"      \* ctrait_prevent_event
 Fires(mech, mode, old, new) ==
-  CPass(mode, old, new) /\ (IF mech = "observe" THEN ~ObservePrevents(mode, old, new)
+  CPass(mode, old, new) /\ (IF ObserveLike(mech) THEN ~ObservePrevents(mode, old, new)
                             ELSE WrapperAccepts(mode, old, new))
 
 Readable(val) == IF val = "unset" THEN "dflt" ELSE val
@@ -52,23 +70,38 @@ Readable(val) == IF val = "unset" THEN "dflt" ELSE val
 NoCalls == [m \in Mechs |-> <<>>]
 Out(val, exc, calls) == [val |-> val, exc |-> exc, calls |-> calls]
 
-\* cfg = [mode, kind, typed]; raising handlers do not matter for who is called: exceptions are contained
-Assign(cfg, val, v) ==
+\* cfg = [mode, kind, typed, shape]; raising handlers do not matter for who is called: exceptions are contained
+Calls(cfg, regs, f(_)) == [m \in Mechs |-> IF Registered(cfg, regs, m) /\ HasNotifiers(cfg, regs) THEN f(m) ELSE <<>>]
+Assign(cfg, val, v, regs) ==
   IF cfg.typed /\ v = "bad" THEN Out(val, "TraitError", NoCalls)
-  ELSE IF cfg.kind = "event" THEN Out(val, "", [m \in Mechs |-> <<<<"undef", v>>>>])      \* every assignment, old Undefined
+  ELSE IF cfg.kind = "event" THEN Out(val, "", Calls(cfg, regs, LAMBDA m : <<<<"undef", v>>>>))      \* every assignment, old Undefined
   ELSE LET old == Readable(val) IN
-       Out(v, "", [m \in Mechs |-> IF Fires(m, cfg.mode, old, v) THEN <<<<old, v>>>> ELSE <<>>])
+       Out(v, "", Calls(cfg, regs, LAMBDA m : IF Fires(m, cfg.mode, old, v) THEN <<<<old, v>>>> ELSE <<>>))
 \* reading: the first read of a never-assigned attribute materialises the default, silently
 Read(cfg, val) ==
   IF cfg.kind = "event" THEN Out(val, "AttributeError", NoCalls)
   ELSE Out(Readable(val), "", NoCalls)
 \* del obj.x: the attribute reverts to its default; reported like an assignment of the default
-Delete(cfg, val) ==
+Delete(cfg, val, regs) ==
   IF cfg.kind = "event" \/ val = "unset" THEN Out(val, "", NoCalls)
-  ELSE Out("dflt", "", [m \in Mechs |-> IF Fires(m, cfg.mode, val, "dflt") THEN <<<<val, "dflt">>>> ELSE <<>>])
+  ELSE Out("dflt", "", Calls(cfg, regs, LAMBDA m : IF Fires(m, cfg.mode, val, "dflt") THEN <<<<val, "dflt">>>> ELSE <<>>))
+\* obj.trait_setq(x=v) / trait_set(trait_change_notify=False, x=v): stores without telling anybody; a rejected value
+\* raises and - like everything here - leaves the object notifying as before (the next operations are judged as usual)
+SetQuiet(cfg, val, v) ==
+  IF cfg.typed /\ v = "bad" THEN Out(val, "TraitError", NoCalls)
+  ELSE IF cfg.kind = "event" THEN Out(val, "", NoCalls)
+  ELSE Out(v, "", NoCalls)
+\* obj.trait_setq(x=v, y=<rejected>): a series of quiet assignments, the second one fails
+SetQuietThenReject(cfg, val, v) ==
+  LET r == SetQuiet(cfg, val, v) IN Out(r.val, "TraitError", NoCalls)
 
-Apply(op, cfg, val, v) ==
-  CASE op = "assign" -> Assign(cfg, val, v)
+Apply(op, cfg, val, v, regs) ==
+  CASE op = "assign" -> Assign(cfg, val, v, regs)
     [] op = "read"   -> Read(cfg, val)
-    [] op = "delete" -> Delete(cfg, val)
+    [] op = "delete" -> Delete(cfg, val, regs)
+    [] op = "setq"   -> SetQuiet(cfg, val, v)
+    [] op = "setq2"  -> SetQuietThenReject(cfg, val, v)
+    [] op \in {"reg", "unreg"} -> Out(val, "", NoCalls)       \* registration itself calls nobody and changes nothing
+\* registration state after the operation (v names the mechanism for reg / unreg)
+RegsAfter(op, regs, v) == IF op = "reg" THEN regs \cup {v} ELSE IF op = "unreg" THEN regs \ {v} ELSE regs
 =============================================================================
